@@ -23,10 +23,13 @@ package generic
 //@   at call fmt.Fprintln#* assert len(arg1) == 1 && typeis(arg1[0], string) && unbox(arg1[0], string) == s
 
 // The array readers of the generic type hand each scanned line to the callback as it is (the text
-// of the line with the generic data type; the bytes of the line).
+// of the line with the generic data type; the bytes of the line); the scanner is bufio's line scanner
+// in its default configuration (no Buffer / Split call changes its limits).
 //@ func readArrayWithType [C15]
 //@   check none
+//@   ensures !called("(*bufio.Scanner).Buffer") && !called("(*bufio.Scanner).Split")
 //@   at call dynamic:callback#* assert typeis(arg0, string) && unbox(arg0, string) == ret("(*bufio.Scanner).Text#1") && arg1 == types.Generic
 //@ func readArray [C15]
 //@   check none
+//@   ensures !called("(*bufio.Scanner).Buffer") && !called("(*bufio.Scanner).Split")
 //@   at call dynamic:callback#* assert arg0 == ret("(*bufio.Scanner).Bytes#1")
